@@ -543,7 +543,7 @@ def do_check(pid, tier, seed):
                 # C11 on the implementation, in the states TLC enumerated: path, dump(), restore into a
                 # fresh terminal, probe battery on both - recorded and judged by the trace specification
                 probes = ["\x1b[1;1HX", "\n", "\x1b[999;1H\nY", "\x1b[1;999Hab", "\x0eaq\x0fq", "\r\t\tT", "\x1b8P",
-                          "\u009b?1047h\x1b8Q", "\u009b?1047lR", "abc", "\r\n", "m", ";5H", "\x1b\\"]
+                          "\u009b?1047h\x1b8Q", "\u009b?1047lR", "abc", "\r\n", "m", ";5H", "\x1b\\", "p"]
                 k = 0
                 stride = max(1, n // m["dump_paths"])
                 CH = 2500                                  # paths per trace file: validated in parallel
